@@ -76,6 +76,11 @@ def check(run, project):
                construct="stream command kwargs")
     s3(run, roles, L)
     s5(run, project)
+    # S6: a stream ends silently only at a message boundary (so the stream's events are the concatenation of the
+    #     messages' events, the last message included) - the C05-E3 rule, re-evaluated here
+    from ..report import RuleView
+    from . import c05
+    c05.check(RuleView(run, "E3", "S6"), project)
     run.floor("S4", 5)
 
 
